@@ -41,7 +41,7 @@ def rows(idx):
                 return v
             return h
 
-        it = Interp(idx, types={"self": "CsvPath"},
+        it = Interp(idx, types={"self": "CsvPath"}, inline_all={"CsvPath"},
                     handlers={"self.matches": h_matches, "self.stop": rec("stop"), "self.raise_match_count_if": rec("raise_match_count_if"),
                               "self.line_monitor.is_last_line_and_blank": const("blank_last", blank_last),
                               "self.scanner.includes": const("includes", includes), "self.scanner.is_last": const("is_last", is_last)})
